@@ -208,32 +208,29 @@ Reopened(u) ==
                    !.keyb = IF full THEN <<>> ELSE w.keyb]
 
 \* ------------------------------------------------------------------ e2undo
-\* order in which the keys are replayed: sorted by fsblk; qsort gives no promise for equal keys, both the stable order
-\* and its reverse are tried
-SortedIdx(keys, rev) ==
-   LET n == Len(keys)
-       Before(a, b) == \/ keys[a].fsblk < keys[b].fsblk
-                       \/ keys[a].fsblk = keys[b].fsblk /\ (IF rev THEN a > b ELSE a < b)
-   IN [r \in 1..n |-> CHOOSE a \in 1..n : Cardinality({b \in 1..n : Before(b, a)}) = r - 1]
+\* The keys are replayed sorted by fsblk; qsort gives no promise for equal keys, so both the stable order and its
+\* reverse are considered (rev).  What a granule holds afterwards is the data of the last key written over it.
+KeyBefore(ks, a, b, rev) == \/ ks[a].fsblk < ks[b].fsblk
+                            \/ ks[a].fsblk = ks[b].fsblk /\ (IF rev THEN a > b ELSE a < b)
+\* <<key, granule of the key>> pairs of the undo file that announce device granule g
+Covers(u, ks, g) == {p \in UNION {{<<i, x>> : x \in 1..ks[i].size} : i \in 1..Len(ks)} :
+                        ks[p[1]].fsblk * u.hdr.fsbs + u.hdr.off + p[2] - 1 = g}
+Replayed(u, ks, d, rev) ==
+   [g \in 0..(MaxLen - 1) |->
+      LET cv == Covers(u, ks, g)
+      IN IF cv = {} THEN d[g]
+         ELSE LET p == CHOOSE p \in cv : \A q \in cv : q = p \/ KeyBefore(ks, q[1], p[1], rev) IN ks[p[1]].data[p[2]]]
+ReplayedLen(u, ks, ln) ==
+   LET his == {Min2(ks[i].fsblk * u.hdr.fsbs + u.hdr.off + ks[i].size, MaxLen) : i \in 1..Len(ks)} \cup {ln}
+   IN CHOOSE m \in his : \A h \in his : h <= m
 
-RECURSIVE ReplayFrom(_, _, _, _, _, _)
-ReplayFrom(u, keys, order, r, d, ln) ==
-   IF r > Len(order) THEN [dev |-> d, len |-> ln]
-   ELSE LET k == keys[order[r]]
-            lo == k.fsblk * u.hdr.fsbs + u.hdr.off
-            hi == lo + k.size
-            d1 == [g \in 0..(MaxLen - 1) |-> IF g >= lo /\ g < hi THEN k.data[g - lo + 1] ELSE d[g]]
-        IN ReplayFrom(u, keys, order, r + 1, d1, Max2(ln, Min2(hi, MaxLen)))
-
-\* validation that precedes the first write (unless forced)
-Valid(u, dm, d, ln) == /\ HdrOk(u, dm)
-                       /\ 1 \notin dm /\ u.sb = DevAt(d, ln, u.hdr.off + 1)
-                       /\ ReadKeys(u, dm).ok
+\* validation precedes the first write (unless forced)
 Undo(u, dm, d, ln, rev) ==
-   IF ~Valid(u, dm, d, ln) THEN [refused |-> TRUE, dev |-> d, len |-> ln, writes |-> 0, needcheck |-> FALSE]
-   ELSE LET ks == ReadKeys(u, dm).keys
-            r == ReplayFrom(u, ks, SortedIdx(ks, rev), 1, d, ln)
-        IN [refused |-> FALSE, dev |-> r.dev, len |-> r.len, writes |-> Len(ks), needcheck |-> u.hdr.state # 1]
+   LET rk == ReadKeys(u, dm)
+       valid == HdrOk(u, dm) /\ 1 \notin dm /\ u.sb = DevAt(d, ln, u.hdr.off + 1) /\ rk.ok
+   IN IF ~valid THEN [refused |-> TRUE, dev |-> d, len |-> ln, writes |-> 0, needcheck |-> FALSE]
+      ELSE [refused |-> FALSE, dev |-> Replayed(u, rk.keys, d, rev), len |-> ReplayedLen(u, rk.keys, ln),
+            writes |-> Len(rk.keys), needcheck |-> u.hdr.state # 1]
 
 \* ------------------------------------------------------------------ actions
 Init == /\ dev = Dev0 /\ len = N /\ ch = NoCh /\ uf = NoUf /\ pend = NoPend /\ nops = 0 /\ nruns = 0
@@ -339,37 +336,35 @@ Next == \/ \E off \in Offsets, t \in TdbSizes \cup {0} : OpenCh(off, t)
         \/ \E fin \in BOOLEAN : CloseCh(fin)
         \/ \E b \in 0..(MaxLen + 8) : Damage(b)
         \/ Tamper \/ Repair
-        \/ \E dry \in BOOLEAN, rev \in BOOLEAN : E2undo(dry, rev)
+        \/ \E dry \in BOOLEAN : E2undo(dry, FALSE)          \* (U2 covers both replay orders of equal keys)
 Spec == Init /\ [][Next]_vars
 
 \* ------------------------------------------------------------------ invariants
-\* positions <<key, granule of the key>> of the undo file that announce device granule g
-Covers(u, ks, g) == {p \in UNION {{<<i, x>> : x \in 1..ks[i].size} : i \in 1..Len(ks)} :
-                        ks[p[1]].fsblk * u.hdr.fsbs + u.hdr.off + p[2] - 1 = g}
-
 \* (U1) write-ahead: a granule of the original device that no longer has its original content is in the undo file,
 \*      exactly once, with its original content -- at every moment, also between the steps of one call
 U1 == res.kind = "none" /\ dmg = {} =>
-        \A g \in 0..(N - 1) : dev[g] # Dev0[g] /\ dev[g] # Foreign =>
-             /\ uf.exists /\ ReadKeys(uf, {}).ok
-             /\ LET ks == ReadKeys(uf, {}).keys
-                IN /\ Cardinality(Covers(uf, ks, g)) = 1
-                   /\ \A p \in Covers(uf, ks, g) : ks[p[1]].data[p[2]] = Dev0[g]
+        LET changed == {g \in 0..(N - 1) : dev[g] # Dev0[g] /\ dev[g] # Foreign}
+            rk == ReadKeys(uf, {})
+        IN changed # {} =>
+             /\ uf.exists /\ rk.ok
+             /\ \A g \in changed :
+                  LET cv == Covers(uf, rk.keys, g)
+                  IN Cardinality(cv) = 1 /\ \A p \in cv : rk.keys[p[1]].data[p[2]] = Dev0[g]
 
 \* (U2) after the channel is closed, e2undo brings back the original device over its original length -- whatever
 \*      order equal keys are replayed in -- and refuses only when nothing was recorded; an unfinished file restores too
 \*      and is reported
 Closed == ~ch.open /\ uf.exists /\ res.kind = "none" /\ dmg = {} /\ dev[uf.hdr.off + 1] # Foreign
 U2 == Closed =>
-        \A rev \in BOOLEAN :
-           LET r == Undo(uf, {}, dev, len, rev)
-           IN /\ \A g \in 0..(N - 1) : r.dev[g] = Dev0[g]
-              /\ (r.refused => uf.hdr.tdb = 0)
-              /\ (~r.refused => (r.needcheck <=> uf.hdr.state # 1))
+        LET r == Undo(uf, {}, dev, len, FALSE)
+            r2 == Undo(uf, {}, dev, len, TRUE)
+        IN /\ \A g \in 0..(N - 1) : r.dev[g] = Dev0[g] /\ r2.dev[g] = Dev0[g]
+           /\ (r.refused => uf.hdr.tdb = 0)
+           /\ (~r.refused => (r.needcheck <=> uf.hdr.state # 1))
 
 \* (U3) every key is expressed in the unit the header announces: the announced position is where the data was read
-U3 == uf.exists /\ dmg = {} /\ ReadKeys(uf, {}).ok =>
-        LET ks == ReadKeys(uf, {}).keys IN \A i \in 1..Len(ks) : ks[i].fsblk * uf.hdr.fsbs = ks[i].gpos
+U3 == uf.exists /\ dmg = {} =>
+        LET rk == ReadKeys(uf, {}) IN rk.ok => \A i \in 1..Len(rk.keys) : rk.keys[i].fsblk * uf.hdr.fsbs = rk.keys[i].gpos
 
 \* (R) a damaged undo file or a foreign superblock is refused without a write; a dry run never writes
 R1 == res.kind # "none" /\ (dmg # {} \/ dev[uf.hdr.off + 1] = Foreign) => res.kind = "refused" /\ res.writes = 0
